@@ -36,7 +36,8 @@ ASSUMPTIONS = ["CRC-32 detects every single-bit error and every burst of <= 32 b
 REACH_MIN = {"bit_flips": {"quick": 80964, "thorough": 1064988}, "bursts": {"quick": 6820, "thorough": 89709},
              "truncations": {"quick": 12236, "thorough": 160950}, "arbitrary": {"quick": 12320, "thorough": 162055},
              "hostile_counts": {"quick": 4000, "thorough": 52615},
-             "consumer_oversized_runs": {"quick": 26, "thorough": 342}}
+             "consumer_oversized_runs": {"quick": 26, "thorough": 342},
+             "inner_message_alterations": {"quick": 2000, "thorough": 40000}}
 
 STEP_A = 60
 MEM_B = 64
@@ -229,6 +230,53 @@ def run_corrupt(spec, res):
     res.hit("truncations", nt)
     res.ob("truncation_exact", nt)
     res.n_sub += nt
+    # damage INSIDE a compressed wrapper: one inner message altered before compression, the wrapper's own checksum
+    # computed over the result and therefore valid -- only the inner message's checksum can tell
+    ni = 0
+    for _ in range(3):
+        magic = rng.choice((0, 1))
+        n = rng.randint(1, 3)
+        logical = [(m, 0, k, (v[:40] if v else v), ts) for (m, a, k, v, ts) in c05.gen_logical(rng, magic, n, small=True)]
+        base = rng.choice((0, 9, 2 ** 33))
+        raws = [R.encode_message(k, v, magic, 0, ts) for (m, a, k, v, ts) in logical]
+        j = rng.randrange(n)
+        want_before = [((base + i), m, a, k, v, ts) for i, (m, a, k, v, ts) in enumerate(logical[:j])]
+        for _k in range(12):
+            pos = rng.randrange(0, len(raws[j]))
+            mutated = bytearray(raws[j])
+            if rng.random() < 0.7:
+                mutated[pos] ^= 1 << rng.randrange(8)
+            else:
+                L = rng.randint(2, 32)
+                start = rng.randrange(0, max(1, len(mutated) * 8 - L))
+                for bitpos in set([start, start + L - 1] + [start + x for x in range(1, L - 1) if rng.random() < 0.5]):
+                    if bitpos // 8 < len(mutated):
+                        mutated[bitpos // 8] ^= 0x80 >> (bitpos % 8)
+            if bytes(mutated) == raws[j]:
+                continue
+            msgs = list(raws)
+            msgs[j] = bytes(mutated)
+            inner = [((base + i) if magic == 0 else i, msgs[i]) for i in range(n)]
+            wo, wraw = R.encode_wrapper(inner, base + n - 1, magic=magic, timestamp=5 if magic else None)
+            setbytes = struct.pack(">qi", wo, len(wraw)) + wraw
+            got_i, exc_i = decode_collect(K, setbytes)
+            ni += 1
+            if isinstance(exc_i, ChecksumError) and len(got_i) <= j and same(got_i, want_before[:len(got_i)]):
+                continue  # (a wrapper may be decoded as a whole before anything of it is yielded)
+            if exc_i is None and len(got_i) <= j and same(got_i, want_before[:len(got_i)]):
+                # the damage hit a length field and the decoder took the rest for a cut-off tail: nothing altered
+                # was yielded (the statement asks for the checksum error; the outer truncation rule allows this only
+                # for the LAST message of a set, which an inner message followed by others is not)
+                if j == n - 1:
+                    continue
+            what = "altered-content-yielded" if len(got_i) > j else (
+                "wrong-exception-%s" % type(exc_i).__name__ if exc_i is not None else "silently-dropped")
+            res.violate("corruption/inside-wrapper/%s" % what, "an inner message of a compressed wrapper was altered "
+                        "(the wrapper's own checksum is valid) and decoding did not fail with ChecksumError",
+                        magic=magic, inner_index=j, of=n, exc=repr(exc_i), yielded=len(got_i))
+    res.hit("inner_message_alterations", ni)
+    res.ob("inner_alteration_detected", ni)
+    res.n_sub += ni
     if res.sample is None:
         res.sample = dict(kind="corrupt", encoder=enc, set_hex=data[:80].hex(), set_len=len(data),
                           entries=[(b["start"], b["end"], len(b["logical"])) for b in bounds],
